@@ -3,11 +3,11 @@
 import json
 
 CLAIMED = {
- 'C01': ('proof', 'Verus proves, on the real bodies of StorageN (N columns), slot.rs, version.rs, entity.rs, that every mutator preserves the representation invariant wf() and that resolve_entity/resolve_direct and all StorageCanResolve paths accept a handle iff its (slot, generation) designates a live row, returning that row; history lemmas (contracts/storage.vsp: step_*) lift this to all histories. Unbounded in history length, capacity, reuse count.',
+ 'C01': ('proof', 'Verus proves, on the real bodies of StorageN (N columns), slot.rs, version.rs, entity.rs, that every mutator preserves the representation invariant wf() and that resolve_entity/resolve_direct and all StorageCanResolve paths accept a handle iff its (slot, generation) designates a live row, returning that row; history lemmas (contracts/storage.vsp: step_*) lift this to all histories. Unbounded in history length, capacity, reuse count. The generated archetype/world layer (the code ecs_world! emits for a two-archetype schema, obtained by evaluating the generator functions of macros/src/generate/world.rs as text: R-quote) and the default methods of traits Archetype/World are verified too: every lookup path (contains, resolve, to_direct, view, borrow, destroy, ecs_find! with the user closure as an unspecified stand-in) for the four key kinds resolves iff the storage of the key\'s archetype resolves the key, dynamically typed keys dispatch on the archetype id, every other archetype is untouched.',
          'contract-based deductive verification (Verus) of the real storage code + history lemmas over the contracts', '7 C01'),
- 'C02': ('proof', 'Whole-view frame postconditions (create_post/destroy_post/grow/accessors) proved by Verus for every column K of StorageN: create writes data.cK at row len of every column, destroy applies ONE permutation to the handle array and to all columns and returns old row d, accessors expose column K cut to len, writes change exactly one cell.',
+ 'C02': ('proof', 'Whole-view frame postconditions (create_post/destroy_post/grow/accessors) proved by Verus for every column K of StorageN: create writes data.cK at row len of every column, destroy applies ONE permutation to the handle array and to all columns and returns old row d, accessors expose column K cut to len, writes change exactly one cell. The generated archetype/world layer (the code ecs_world! emits for a two-archetype schema, obtained by evaluating the generator functions of macros/src/generate/world.rs as text: R-quote) and the default methods of traits Archetype/World are verified too: create stores into_spec(components) field by field, the view/slices/borrow structs expose the named columns in order, ecs_find! hands the closure the found row\'s own handle and cell and changes nothing else.',
          'contract-based deductive verification (Verus): frame postconditions over the whole abstract view', '7 C02'),
- 'C03': ('proof', 'Every unsafe callee precondition (get_unchecked in_bounds, unwrap_unchecked is_some, DataPtr slice/write/swap_remove) and every debug_checked_assume!/debug_assert! is discharged under wf() alone for ARBITRARY handle bits; "never matches by accident" is the Some ==> live-row postcondition. One recorded known finding (release-profile from_any_unchecked).',
+ 'C03': ('proof', 'Every unsafe callee precondition (get_unchecked in_bounds, unwrap_unchecked is_some, DataPtr slice/write/swap_remove) and every debug_checked_assume!/debug_assert! is discharged under wf() alone for ARBITRARY handle bits; "never matches by accident" is the Some ==> live-row postcondition. One recorded known finding (release-profile from_any_unchecked). The generated archetype/world layer (the code ecs_world! emits for a two-archetype schema, obtained by evaluating the generator functions of macros/src/generate/world.rs as text: R-quote) and the default methods of traits Archetype/World are verified too: a dynamically typed key whose archetype id is not the archetype\'s (or none of the world\'s) is never accepted: absence or the documented panic; every from_any_unchecked call in generated code carries the obligation that the id was checked.',
          'contract-based deductive verification (Verus): safety preconditions of all unsafe calls under the representation invariant', '7 C03'),
  'C04': ('proof', 'Linear ownership view cells(): Seq<Option<T>> of every column: write requires None, swap_remove/slice require Some, drop_to(len) requires all Some below len, drop_body frees every array, failed push_within_capacity returns its argument with *self unchanged, clone makes exactly one clone per live cell.',
          'contract-based deductive verification (Verus) over a linear ghost ownership view of the columns', '7 C04'),
@@ -15,23 +15,23 @@ CLAIMED = {
          'contract-based deductive verification (Verus) of the query-parameter binding functions', '7 C05'),
  'C06': ('proof', 'Slice accessors have length len() and content rows 0..len of the right column with the matching handle (Verus, all N columns).',
          'contract-based deductive verification (Verus) of slice accessors', '7 C06'),
- 'C07': ('proof', 'The ecs_iter_destroy! template of macros/src/generate/query.rs is instantiated (R-tmpl, text of the quote! block, holes filled for a two-archetype schema) and its reverse loop verified by Verus with a ghost invocation trace: the j-th closure invocation is for the entity that sat in row len-1-j when the loop started (each original entity exactly once), exactly the flagged ones are destroyed (len decreases by the number of destroy decisions, rows not yet visited are untouched: handle, values, position), Break/BreakDestroy return at once also across archetypes, and the handle / direct handle / component cell passed to the closure are the visited row\'s own (direct handle minted at the current archetype version). Generated archetype wrappers are a hand-written thin model checked textually against world.rs (A-gen-arch).',
+ 'C07': ('proof', 'The ecs_iter_destroy! template of macros/src/generate/query.rs is instantiated (R-tmpl, text of the quote! block, holes filled for a two-archetype schema) and its reverse loop verified by Verus with a ghost invocation trace: the j-th closure invocation is for the entity that sat in row len-1-j when the loop started (each original entity exactly once), exactly the flagged ones are destroyed (len decreases by the number of destroy decisions, rows not yet visited are untouched: handle, values, position), Break/BreakDestroy return at once also across archetypes, and the handle / direct handle / component cell passed to the closure are the visited row\'s own (direct handle minted at the current archetype version).  The archetype methods the template calls (get_all_slices_mut, destroy, len, version) are the code section_archetype() generates for the schema (R-quote), verified in the same unit.',
          'contract-based deductive verification (Verus) of the instantiated ecs_iter_destroy! template over the storage contracts', '7 C07'),
  'C08': ('proof', 'create_post: the returned handle carries the generation of a slot that was FREE; generations only change in release (+1, never wraps in the default configuration because next() panics first); archetype id is packed into every handle. Freshness for all histories by lemma step_create.',
          'contract-based deductive verification (Verus): freshness postcondition of create + generation monotonicity', '7 C08'),
- 'C09': ('proof', 'resolve_direct iff-contract (accepted iff version equal and index < len), archetype version +1 on every destroy and unchanged otherwise, to_direct mints (dense index, current version).',
+ 'C09': ('proof', 'resolve_direct iff-contract (accepted iff version equal and index < len), archetype version +1 on every destroy and unchanged otherwise, to_direct mints (dense index, current version). The generated archetype/world layer (the code ecs_world! emits for a two-archetype schema, obtained by evaluating the generator functions of macros/src/generate/world.rs as text: R-quote) and the default methods of traits Archetype/World are verified too: to_direct / direct-key lookups at archetype and world level are the storage\'s; ecs_find! mints the direct handle for the found row at the current archetype version.',
          'contract-based deductive verification (Verus) of the direct-handle functions', '7 C09'),
  'C10': ('proof', 'R-unwind ghost flag: before every call that can raise a documented panic inside a &mut self storage method Verus proves that no field of self has been written or mutably borrowed since entry (so unwinding starts from the well-formed entry state). Scoped: callbacks and allocation panics are argued in DESIGN.md, not proved.',
          'contract-based deductive verification (Verus) of a mechanical unwind-flag discipline', '7 C10'),
- 'C12': ('proof', 'len/is_empty/capacity contracts; with_capacity; grow (monotone, capped at 2^24, false only at the limit with state unchanged); push panics only at 2^24 with state untouched; push_within_capacity Ok iff len < cap, capacity unchanged, Err returns the argument; free chain of length cap-len inside wf().',
+ 'C12': ('proof', 'len/is_empty/capacity contracts; with_capacity; grow (monotone, capped at 2^24, false only at the limit with state unchanged); push panics only at 2^24 with state untouched; push_within_capacity Ok iff len < cap, capacity unchanged, Err returns the argument; free chain of length cap-len inside wf(). The generated archetype/world layer (the code ecs_world! emits for a two-archetype schema, obtained by evaluating the generator functions of macros/src/generate/world.rs as text: R-quote) and the default methods of traits Archetype/World are verified too: generated len/capacity/is_empty/new/with_capacity/create_within_capacity delegate exactly; World::with_capacity gives each archetype its own capacity field.',
          'contract-based deductive verification (Verus)', '7 C12'),
- 'C13': ('proof', 'clone_body: every abstract view of the clone equals the original (len, capacity, version, free head, whole slot array incl. free links, handle array), each live cell cloned exactly once (cloned(a,b)), wf() of the clone.',
+ 'C13': ('proof', 'clone_body: every abstract view of the clone equals the original (len, capacity, version, free head, whole slot array incl. free links, handle array), each live cell cloned exactly once (cloned(a,b)), wf() of the clone. The generated archetype/world layer (the code ecs_world! emits for a two-archetype schema, obtained by evaluating the generator functions of macros/src/generate/world.rs as text: R-quote) and the default methods of traits Archetype/World are verified too: generated Clone of archetype and world is clone_post per archetype.',
          'contract-based deductive verification (Verus) with loop invariants on the two clone loops', '7 C13'),
- 'C14': ('proof', 'Verus contracts on every conversion in entity.rs for all 2^32 keys and all generations (bit-vector lemmas for key packing), PartialEq specs, injectivity of the 64-bit word fed to the hasher.',
+ 'C14': ('proof', 'Verus contracts on every conversion in entity.rs for all 2^32 keys and all generations (bit-vector lemmas for key packing), PartialEq specs, injectivity of the 64-bit word fed to the hasher. The generated archetype/world layer (the code ecs_world! emits for a two-archetype schema, obtained by evaluating the generator functions of macros/src/generate/world.rs as text: R-quote) and the default methods of traits Archetype/World are verified too: every generated From/TryFrom impl of SelectArchetype, SelectEntity, SelectEntityDirect and the hidden select-total enum is checked against a ghost spec (Ok(variant(wrap(v))) exactly when the archetype id matches, else InvalidEntityType).',
          'contract-based deductive verification (Verus) + bit_vector lemmas', '7 C14'),
  'C15': ('proof', 'advance_attribute_id (real body, syn types stubbed) implements exactly the enum-discriminant rule rule_next_id and rejects an id iff it is already assigned or would count past 255; lemma_rule_fold: folding that step over ANY sequence of items yields pairwise distinct ids obeying the rule, or the first error. Partial claim: the loop of DataWorld::new, the emission of the constants and "fails to compile" are not covered (see level_note).',
          'contract-based deductive verification (Verus) of the id-assignment function + fold lemma', '7 C15'),
- 'C17': ('proof', 'events configuration: force_create pushes exactly the returned handle to created, force_destroy exactly the removed handle to destroyed, clear_events empties both and changes nothing else, every other &mut method has both logs in its frame, clone copies them.',
+ 'C17': ('proof', 'events configuration: force_create pushes exactly the returned handle to created, force_destroy exactly the removed handle to destroyed, clear_events empties both and changes nothing else, every other &mut method has both logs in its frame, clone copies them. The generated archetype/world layer (the code ecs_world! emits for a two-archetype schema, obtained by evaluating the generator functions of macros/src/generate/world.rs as text: R-quote) and the default methods of traits Archetype/World are verified too: generated clear_events of archetype and world clears every archetype\'s logs.',
          'contract-based deductive verification (Verus) under the events feature', '7 C17'),
  'C19': ('proof', 'The whole obligation set is re-extracted and re-verified under all 8 feature x profile configurations (quick: N=1; thorough: N in {1,2,3,16,17,32}); wrapping_version changes only the next() contract while every C03/C04 obligation still discharges unconditionally.',
          'contract-based deductive verification (Verus) as a configuration matrix', '7 C19'),
@@ -44,7 +44,7 @@ NOT_APPLICABLE = {
 }
 
 NOTE = ('Trusted base / assumptions: Verus+Z3+rustc front end; assumed std specifications (contracts/prelude.rs); DataPtr contracts (raw-pointer bodies '
-        'outside Verus, bounded Kani in the thorough tier); generated impls of ComponentsN/SlicesN/ViewN; results per instantiated N; extraction rules R-* '
+        'outside Verus, bounded Kani in the thorough tier); generated-layer results are for ONE schema (R-quote); results per instantiated N; extraction rules R-* '
         '(DESIGN.md 3). Verus gives no counterexamples: a VIOLATION names the failed obligation and ends with no-failing-input-found.')
 
 
